@@ -96,6 +96,11 @@ def generate(seed, tier='quick'):
     for b in range(256):
         add('Bool', 'val', '%02x' % b)
         add('Bool', 'dec', '%02x' % b)
+        # a Bool at the front of a longer slice (a field followed by other fields): only its own byte counts
+        for tail in ('00', '01', '02', 'ff02', '0100', '%02x' % (b ^ 1)):
+            add('Bool', 'val', '%02x%s' % (b, tail))
+            add('Bool', 'dec', '%02x%s' % (b, tail))
+    add('Bool', 'val', '-')
     for a in (0, 1):
         add('Bool', 'enc', str(a))
         for op in ('not', 'roundtrip', 'default'):
